@@ -174,3 +174,23 @@ class StackRun(object):
 def _short(e):
     import re
     return re.sub(r"0x[0-9a-fA-F]+", "0x?", str(e))[:100]
+
+
+def tap_submits(env, chain):
+    """Instance-level spies: record every submit() reaching each executor of the chain
+    ('dsubmit' level fn-tag / 'dsubmit-ret') without adding a layer."""
+    for level, ex in enumerate(chain):
+        orig = ex.submit
+
+        def submit(*a, _orig=orig, _level=level, **k):
+            fn = a[0] if a else None
+            if _level and hasattr(ex, "submit_timeout") and False:
+                pass
+            env.rec("dsubmit", _level, getattr(fn, "tag", None))
+            f = _orig(*a, **k)
+            env.rec("dsubmit-ret", _level, getattr(fn, "tag", None))
+            return f
+        try:
+            ex.submit = submit
+        except AttributeError:
+            pass
